@@ -211,6 +211,20 @@ CHECKS["C19"] = dict(
     design_ref="DESIGN.md section 2, C19",
 )
 
+CHECKS["C13"] = dict(
+    technique="TLA+ exact small model ElemCodec of every encoding format (Enc / Dec / Sem on digit strings over toy curves; strings, elements and the mutate machine exhausted by TLC; rule table cross-checked against the model) + replay on the generic point code over a toy field + TLC trace validation of production encoders / decoders with math/big oracle booleans",
+    text="ElemCodec models, over toy prime fields, short-Weierstrass curves (k256-, p256-, Pasta-, BLS-G1-like with odd cofactor), twisted-Edwards curves with cofactor 8 (with Montgomery view and prime "
+         "subgroup) and a GT-like subgroup, and every format of the library as a function on digit strings with the flag bits where the library puts them (SEC1 compressed / uncompressed, Pasta, RFC 8032, "
+         "Montgomery u-only, ZCash BLS12-381 C/I/S, affine constructors, GT, the field decoders incl. reducing / strict / wide). TLC exhausts every string of length 0..L+1, every element and the "
+         "Choose-Encode-Mutate-Decode-Reencode machine and checks round trip, injectivity, soundness (accepted => on curve, in the promised subgroup, or the bytes mod p), rejection of wrong lengths / flags / "
+         "off-curve coordinates, that the rule table equals what C13 demands and that the modelled decoder equals the table. TLC-generated cases replay exactly on the library's generic point code instantiated "
+         "over a toy field. The driver runs every public point / scalar / base-field / GT type through every decoder, the affine constructors and CBOR over the window [k]G (|k| <= 4096), special points (x = 0, "
+         "torsion, composite order, cofactor components) and crafted strings (all prefixes / flag combinations, shifted and unreduced coordinates, wrong lengths); ElemCodecTrace applies the rule table to the "
+         "oracle booleans and decides every line (accept / reject / element token / never a panic).",
+    note="Device T on production types: decided over the window, the special points and the crafted classes, not every element / byte string; G2 / GT shapes only in one-component form in the design model; uniqueness of "
+         "accepted encodings is not demanded (the property excludes it). Known findings: P-256 identity encoding collides with (0, sqrt b); curve25519 u-only form (P / -P) and its order-2 point.",
+    design_ref="DESIGN.md section 3 (replaced) and 9.9",
+)
+
 NOT_APPLICABLE = {
-    "C13": "byte-level encode/decode fidelity of 256-381-bit curve elements: no state/transition structure and operands TLC cannot represent; a TLA+ specification would decide nothing (DESIGN.md section 3)",
 }
